@@ -733,6 +733,8 @@ def mask_scores(matrix, width, height):
                     or not any(seq[max(idx - 4, 0):min(idx, qr_size)]) \
                     or not any(seq[max(offset, 0):min(offset + 4, qr_size)]):
                 count += 40  # N3 = 40
+                # The pattern may overlap with itself (1011101011101)
+                offset = idx + 4
             else:
                 # Found no / not enough light modules, start at next possible
                 # match:
